@@ -214,6 +214,27 @@ CIRC_MISC = T("GoCircMisc", [
 ROLL_STORE = T("GoRollingStore", [
     ("tie_rolling_Store", "CM.GoTie.GoRollingStore.go_Store_eq", "`RollingBuckets.Store` copies the argument")])
 
+# ---- all-schedule theorems about the whole-call model Conc/Run (Props/RunAll.lean), re-declared under the properties they serve
+def RA(items): return [((a, "CM.Props.RunAll." + t, d), "Props.RunAll") for a, t, d in items]
+RUN_VIEWS = RA([
+    ("run_call_view", "call_view_init", "every schedule of the whole-call model projects onto a schedule of Conc/Call (so C01's all-schedule theorems hold of it)"),
+    ("run_gauge_view", "gauge_view_init", "… and onto a schedule of Conc/Gauge (C04's)")])
+RUN_C04 = RA([
+    ("run_inflight_le_limit", "inflight_le_limit", "whole calls, every schedule: never more than the limit inside the run function"),
+    ("run_limit_zero", "limit_zero_invokes_nobody", "limit 0: nobody is ever inside"),
+    ("run_negative_unlimited", "negative_unlimited", "a negative limit refuses nobody"),
+    ("run_quiescent_gauge_zero", "quiescent_gauge_zero", "once every call has returned — by return, refusal or PANIC — the gauge reads zero"),
+    ("run_gauge_never_negative", "gauge_never_negative", "the gauge is never negative")])
+RUN_C01 = RA([
+    ("run_force_open", "force_open_invokes_nobody", "whole calls, every schedule: under ForceOpen no run function is ever invoked"),
+    ("run_invoked_only_if_admitted", "invoked_only_if_admitted", "a run function is invoked only for a call that read the circuit as closed, or was admitted by the closer with ForceOpen off, and was not vetoed"),
+    ("run_open_circuit", "open_circuit_invokes_nobody", "an open circuit whose closer admits nobody, with nobody closing it, invokes nothing and stays open")])
+RUN_EVENTS = RA([
+    ("run_exactly_the_right_events", "exactly_the_right_events", "every schedule: a call that ended has told the run collectors exactly what its outcome calls for — one short-circuit, one rejection, the ONE event of the kind the classification precedence yields, nothing after a veto, and NOTHING when its function panicked; its function was invoked exactly once iff it ran"),
+    ("run_at_most_one_event", "at_most_one_event_ever", "… and never more than one event / one invocation while it is under way"),
+    ("run_manual_silent", "manual_threads_silent", "OpenCircuit / CloseCircuit tell the run collectors nothing")])
+RUN_LIVE = RA([("run_never_deadlocks", "never_deadlocks", "whole calls racing transitions never deadlock")])
+
 # ---- K6: interference ties (CircuitProofs/GoTie/I_*): the bodies translated over primitives in which an arbitrary move of the
 # other goroutines precedes every atomic / lock operation take exactly the steps of the small-step model's thread
 K6_CORE = [(("tie_k6_thread_view", "CM.GoTie.ICore.thread_view", "every schedule of any system, seen from one thread, is a run of that thread alone against SOME oracle: what is proved for every oracle covers every schedule"), "I_Core")]
@@ -242,7 +263,7 @@ K6_CALL = [((a, "CM.GoTie.ICall." + t, d), "I_Call") for a, t, d in [
 
 PROPS = {
     "C01": ("load shedding: who is admitted is decided by `allowNewRun` / `run`",
-            [C("IsOpen"), C("allowNewRun"), RUN] + NEVER + ERR_OPEN + K6_CALL + K6_TRANS + K6_CORE),
+            [C("IsOpen"), C("allowNewRun"), RUN] + NEVER + ERR_OPEN + K6_CALL + K6_TRANS + K6_CORE + RUN_C01 + RUN_EVENTS[:1] + RUN_VIEWS[:1] + RUN_LIVE),
     "C02": ("the built-in openers' method bodies, translated from today's opener.go / closers.go, are the model's functions",
             T("GoHOpener", evs("GoHOpener", "HOpener.onRun") + [
                 ("tie_GoHOpener_Opened", "CM.GoTie.GoHOpener.go_Opened_eq", "`Opened` resets both rolling counters"),
@@ -264,16 +285,16 @@ PROPS = {
                 ("tie_GoHCloser_ShouldClose", "CM.GoTie.GoHCloser.go_ShouldClose_eq", "`ShouldClose` compares the successes in a row with the required number")]) + TC +
             [C("close"), C("checkSuccess")] + CLOSER_CFG + K6_TC + TC_HOOK),
     "C04": ("the gauges and limits: `throttleConcurrentCommands`, the deferred decrements in `run` / `fallback`, the published limits",
-            [C("throttleConcurrentCommands"), C("ConcurrentCommands"), C("ConcurrentFallbacks"), RUN, FALLBACK] + LIVECFG + ERR_LIMIT + ATOM_I64),
+            [C("throttleConcurrentCommands"), C("ConcurrentCommands"), C("ConcurrentFallbacks"), RUN, FALLBACK] + LIVECFG + ERR_LIMIT + ATOM_I64 + RUN_C04 + RUN_EVENTS[:1] + RUN_VIEWS[1:]),
     "C05": ("the classification chain of `run`",
-            [C("checkErrBadRequest"), C("checkErrTimeout"), C("checkErrInterrupt"), C("checkErrFailure"), C("checkSuccess"), RUN] + FAN_RUN + ALL + ERR_BAD + CTOR),
+            [C("checkErrBadRequest"), C("checkErrTimeout"), C("checkErrInterrupt"), C("checkErrFailure"), C("checkSuccess"), RUN] + FAN_RUN + ALL + ERR_BAD + CTOR + RUN_EVENTS),
     "C06": ("fallback rules: `Execute` and `fallback`", [FALLBACK, EXECUTE, RUNENTRY] + FAN_FB + ERR_BAD + ERR_NOTBAD),
     "C07": ("contexts: the derived deadline context in `run`, the caller's context everywhere else", [RUN, FALLBACK, EXECUTE]),
     "C08": ("overrides and pass-through: `IsOpen`, `allowNewRun`, the transitions, `Execute`'s Disabled branch, the published flags",
             [C("IsOpen"), C("isEmptyOrNil"), C("allowNewRun"), C("openCircuit"), C("close"), C("attemptToOpen"), EXECUTE] + LIVECFG + SETCFG + ATOM_BOOL + CIRC_MISC),
     "C09": ("transitions and their notifications",
             [C("IsOpen"), C("openCircuit"), C("close"), C("attemptToOpen"), C("OpenCircuit"), C("CloseCircuit"), C("checkSuccess"), C("checkErrFailure"), C("checkErrTimeout")] + FAN_CIRC + SETCFG + ATOM_BOOL + K6_TRANS + K6_CORE + CTOR),
-    "C10": ("panics: the deferred calls of `run` and `fallback` run on every exit", [RUN, FALLBACK, EXECUTE] + CIRC_MISC),
+    "C10": ("panics: the deferred calls of `run` and `fallback` run on every exit", [RUN, FALLBACK, EXECUTE] + CIRC_MISC + RUN_EVENTS[:1] + RUN_C04[3:4] + RUN_LIVE),
     "C11": ("reconfiguration: what each SetConfigThreadSafe writes (circuit, hystrix opener, hystrix closer, SLO tracker) — every setting, nothing else",
             SETCFG + LIVECFG + OPENER_CFG + CLOSER_CFG + SLO_CFG),
     "C12": ("every timestamp is a reading of the configured clock: all translated functions of circuit.go",
@@ -315,7 +336,7 @@ UNITS = {"F_": "gocircuit", "All": "gocircuit", "T_GoHOpener": "gohopener", "T_G
          "T_GoCtor": ["goctor", "gosetcfg", "goslocfg"], "T_GoCtorSet": ["goctorset", "gosetcfg"], "T_GoManagerAll": ["gomanagerall", "gosetcfg", "goslocfg"],
          "T_GoTCHook": ["gotchook", "gotimedcheck", "gosetcfg", "goslocfg"], "T_GoSloFactory": ["goslofactory", "goslocfg", "gosetcfg"],
          "T_GoCircMisc": ["gocircmisc", "gosetcfg", "goslocfg"], "T_GoRollingStore": ["gorollingstore", "gosetcfg", "goslocfg"],
-         "I_Core": [], "I_RC": ["gorciclear", "gorciadv", "gorciops"], "I_TC": "gotci", "I_Call": "gocalli",
+         "I_Core": [], "Props.RunAll": [], "I_RC": ["gorciclear", "gorciadv", "gorciops"], "I_TC": "gotci", "I_Call": "gocalli",
          "T_GoLiveLogic": ["goneveropens", "gonevercloses", "gohopenercfg", "gohclosercfg", "goslocfg"]}
 
 def units_of(prop):
@@ -329,6 +350,8 @@ def units_of(prop):
 def main(only=None):
     for prop, (intro, items) in PROPS.items():
         if only and prop not in only: continue
+        late = [it for it in items if it[1].startswith("Props.")]      # proved in modules that import Props/<prop>.lean
+        items = [it for it in items if not it[1].startswith("Props.")]
         mods = []
         for _, m in items:
             if m not in mods: mods.append(m)
@@ -343,7 +366,24 @@ def main(only=None):
         for (alias, target, doc), _ in items:
             s += "/-- %s -/\ntie_theorem %s := %s\n\n" % (doc, alias, target)
         s += "end CM.Props.%s\n" % prop
-        with open(os.path.join(OUT, "%sTie.lean" % prop), "w") as f: f.write(s)
+        if items:
+            with open(os.path.join(OUT, "%sTie.lean" % prop), "w") as f: f.write(s)
+        allp = os.path.join(OUT, "%sAll.lean" % prop)
+        if late:
+            lmods = []
+            for _, m in late:
+                if m not in lmods: lmods.append(m)
+            s = ("/- Props/%sAll.lean — GENERATED by tools/mkties.py — the ROOT module of property %s (what bin/check builds and audits):\n"
+                 "   Props/%s.lean plus theorems proved in modules that build on it, re-declared under this property's namespace. -/\n" % (prop, prop, prop))
+            s += "import CircuitProofs.TieAlias\nimport CircuitProofs.Props.%s\n" % prop
+            for m in lmods: s += "import CircuitProofs.%s\n" % m
+            s += "namespace CM.Props.%s\n\n" % prop
+            for (alias, target, doc), _ in late:
+                s += "/-- %s -/\ntie_theorem %s := %s\n\n" % (doc, alias, target)
+            s += "end CM.Props.%s\n" % prop
+            with open(allp, "w") as f: f.write(s)
+        elif os.path.exists(allp):
+            os.remove(allp)
 
 if __name__ == "__main__":
     import sys
